@@ -124,6 +124,9 @@ func MultiPolygon(box orb.Bound, mp orb.MultiPolygon, o orb.Orientation) orb.Mul
 	// outer rings
 	outerRings := make([]orb.Ring, 0, len(mp))
 	for _, p := range mp {
+		if len(p) == 0 {
+			continue
+		}
 		outerRings = append(outerRings, p[0])
 	}
 
@@ -140,6 +143,9 @@ func MultiPolygon(box orb.Bound, mp orb.MultiPolygon, o orb.Orientation) orb.Mul
 	// inner rings
 	var innerRings []orb.Ring
 	for _, p := range mp {
+		if len(p) == 0 {
+			continue
+		}
 		for _, r := range p[1:] {
 			innerRings = append(innerRings, r)
 		}
@@ -166,6 +172,10 @@ func MultiPolygon(box orb.Bound, mp orb.MultiPolygon, o orb.Orientation) orb.Mul
 func clipRings(box orb.Bound, rings []orb.Ring) (open []orb.LineString, closed []orb.Ring) {
 	var result []orb.LineString
 	for _, r := range rings {
+		if len(r) == 0 {
+			continue
+		}
+
 		if !r.Closed() && (box.Contains(r[0]) || box.Contains(r[len(r)-1])) {
 			r = append(r, r[0])
 		}
